@@ -41,6 +41,20 @@ def stage1(prop, tier, v, cov):
     cov["transitions"] = r.generated
     cov["mc_runs"].append(dict(run="MC_RoutingTable K=2 universe=%s, security on and off" % uni, distinct=r.distinct,
                                generated=r.generated, depth=r.depth, wall_s=round(r.wall, 1)))
+    if prop in ("C06", "C09"):
+        # the composition: three routing tables over a lossy, duplicating wire with a spoofing adversary
+        msgs = 3 if tier == "quick" else 4
+        cfg = ("CONSTANTS\n Nodes = {\"a\", \"b\", \"c\"}\n K = 1\n MaxMsgs = %d\nSPECIFICATION Spec\n"
+               "INVARIANTS Provenance NoGhost NoSelf WellFormedAll\nPROPERTIES Hearsay\nVIEW View\nCHECK_DEADLOCK FALSE\n" % msgs)
+        r2 = vlib.tlc("Network", cfg, timeout=3000)
+        log("  TLC Network (3 nodes, K=1, %d datagrams)  %d distinct  %d generated  %.1fs" % (msgs, r2.distinct, r2.generated, r2.wall))
+        if not r2.clean:
+            v.inconclusive.append("composition model not clean: inv=%s prop=%s err=%s timeout=%s" % (r2.invariant, r2.property, r2.error, r2.timed_out))
+        else:
+            cov["states"] += r2.distinct
+            cov["transitions"] += r2.generated
+            cov["mc_runs"].append(dict(run="Network: 3 RoutingTable instances over a lossy duplicating wire + spoofing adversary, %d datagrams" % msgs,
+                                       distinct=r2.distinct, generated=r2.generated, depth=r2.depth, wall_s=round(r2.wall, 1)))
 
 
 def drive(binary, seed, n, events, out, only=None):
